@@ -367,6 +367,10 @@ func ExploreQuery(cfg vrt.Config, bound int, maxExecs int64, mk func() (map[stri
 		},
 		Check: func(prefix []int32, r *vrt.Result) bool { return check(cur, prefix) },
 	}
+	e.MaxSched, e.MaxMap = MaxSched, MaxMap
 	e.Explore(bound)
 	return &e.Stats
 }
+
+// MaxSched / MaxMap are the per-kind deviation caps used by ExploreQuery (0 = none).
+var MaxSched, MaxMap int
